@@ -28,7 +28,7 @@ m = {
     "setup_cmd": "./setup.sh",
     "hooks": {"guard": "verif", "enable": "go build -tags verif (the harness module under /verif/harness replaces github.com/lab5e/lospan with /repo)",
               "baseline_off_cmd": "cd /repo && GOFLAGS=-mod=mod GOPROXY=off GOSUMDB=off go test -vet=off -count=1 ./...",
-              "source_commits": [hooks_commit, "e65df06bbd716484c07ff7bce6c32eb96ee16ca2"], "add_only": True},
+              "source_commits": [hooks_commit, "e65df06bbd716484c07ff7bce6c32eb96ee16ca2", "b62d9738f8f294dd03176cf17058d2d9102527fe"], "add_only": True},
     "engines": [
         {"name": "lean", "path": "/verif/lean", "serves_properties": sorted(PROPS), "kind_free_text": "Lean 4 project: Spec, Model, Proofs, Props (theorems), Tie (facts = model), Driver (verifdrv executable)"},
         {"name": "extract", "path": "/verif/extract", "serves_properties": sorted(PROPS), "kind_free_text": "go/ast fact extractor regenerating lean/LospanVerif/Facts on every run"},
